@@ -1458,182 +1458,6 @@ Proof.
   - apply service_cands.
 Qed.
 
-(* ================================================================== the trace monitor *)
-Lemma node_eqb_spec a b : node_eqb a b = true <-> a = b.
-Proof.
-  destruct a as [i al s ad sv], b as [i' al' s' ad' sv']. unfold node_eqb. simpl.
-  rewrite !andb_true_iff, !Z.eqb_eq, Bool.eqb_true_iff, (list_eqb_spec svc_eqb svc_eqb_spec).
-  split; [intros [[[[-> ->] ->] ->] ->]; reflexivity | intro H; inv H; auto 6].
-Qed.
-
-Lemma node_eqb_refl n : node_eqb n n = true.
-Proof. apply node_eqb_spec. reflexivity. Qed.
-
-Lemma reg_ok_refl n : nalive n = true -> reg_ok n (nid n) n = true.
-Proof. intro A. unfold reg_ok. rewrite Z.eqb_refl, node_eqb_refl, A. reflexivity. Qed.
-
-(* model state versus monitor state *)
-Definition corr (sm : pstate) (st : mstate_t) : Prop :=
-  snd sm = snd st /\
-  match fst sm, fst st with
-  | None, None => True
-  | Some p, Some m =>
-      p_self p = m_self m /\ p_watches p = m_watches m /\ p_err p = m_err m /\
-      nalive (p_self p) = true /\
-      (forallb conform_evb (m_seen m) = true ->
-       rel (p_self p) (p_mem p) (fold_left sstep (m_seen m) (listed (m_listing m))))
-  | _, _ => False
-  end.
-
-Lemma monitor_run ops : forall sm st, corr sm st -> monitor_from st ops (run_from sm ops) = true.
-Proof.
-  induction ops as [|o r IH]; intros [pv dir] [mp dir'] [Cd C]; [reflexivity|].
-  simpl in Cd, C. subst dir'.
-  destruct o as [self listing|b|st0|v0|v| | |n|id addr svcs|a b].
-  - (* OStart *)
-    simpl. destruct (if Z.ltb (naddr self) (-1) then None else listing_nodes listing) as [nodes|].
-    + unfold pub_of. simpl. rewrite !andb_true_iff.
-      repeat match goal with |- _ /\ _ => split end; try reflexivity.
-      * apply (reg_ok_refl (mk_self self)). reflexivity.
-      * apply (reg_ok_refl (mk_self self)). reflexivity.
-      * apply pub_ok_sound. intros _. apply rel_implied. simpl. apply init_rel.
-      * apply IH. split; [reflexivity|]. simpl.
-        do 4 (split; [reflexivity|]). intros _. apply init_rel.
-    + apply IH. split; [reflexivity | exact I].
-  - (* OBatch *)
-    destruct pv as [p|], mp as [m|]; simpl in C; try contradiction.
-    + destruct C as [Es [Ew [Ee [Al C]]]]. simpl. destruct (is_nil b) eqn:Nb.
-      * simpl. apply IH. split; [reflexivity|]. simpl. auto.
-      * unfold pub_of. simpl. apply andb_true_iff.
-        assert (R : forallb conform_evb (m_seen m ++ b) = true ->
-                    rel (p_self p) (step_batch (p_self p) (p_mem p) b)
-                        (fold_left sstep (m_seen m ++ b) (listed (m_listing m)))).
-        { intro F. rewrite forallb_app in F. apply andb_true_iff in F. destruct F as [F1 F2].
-          rewrite fold_left_app. apply step_batch_rel; [apply C; exact F1 | apply conform_all_spec; exact F2]. }
-        split.
-        -- rewrite <- Es. apply pub_ok_sound. intro F. apply rel_implied. apply R. exact F.
-        -- apply IH. split; [reflexivity|]. simpl. auto.
-    + simpl. apply IH. split; [reflexivity | exact I].
-  - (* OSelfState *)
-    destruct pv as [p|], mp as [m|]; simpl in C; try contradiction.
-    + destruct C as [Es [Ew [Ee [Al C]]]]. simpl. apply andb_true_iff. split.
-      * rewrite <- Es. apply (reg_ok_refl (with_state (p_self p) st0)). exact Al.
-      * apply IH. split; [reflexivity|]. simpl. rewrite <- Es.
-        split; [reflexivity|]. split; [exact Ew|]. split; [exact Ee|]. split; [exact Al|].
-        intro F. apply rel_set_state. apply C. exact F.
-    + simpl. apply IH. split; [reflexivity | exact I].
-  - (* OLeaseLost *)
-    destruct pv as [p|], mp as [m|]; simpl in C; try contradiction.
-    + pose proof C as [Es [Ew [Ee [Al C']]]]. simpl. apply andb_true_iff. split.
-      * rewrite <- Es. apply reg_ok_refl. exact Al.
-      * apply IH. split; [reflexivity | exact C].
-    + simpl. apply IH. split; [reflexivity | exact I].
-  - (* ORewatch *)
-    destruct pv as [p|], mp as [m|]; simpl in C; try contradiction.
-    + destruct C as [Es [Ew [Ee [Al C]]]]. simpl. rewrite <- Ew, <- Ee, Z.eqb_refl, Bool.eqb_reflx. simpl.
-      apply IH. split; [reflexivity|]. simpl. auto.
-    + simpl. apply IH. split; [reflexivity | exact I].
-  - (* OShutdown *)
-    destruct pv as [p|], mp as [m|]; simpl in C; try contradiction.
-    + destruct C as [Es _]. simpl. rewrite <- Es, Z.eqb_refl. simpl.
-      apply IH. split; [reflexivity | exact I].
-    + simpl. apply IH. split; [reflexivity | exact I].
-  - (* OQuery *)
-    cbn [run_from step_op monitor_from]. apply andb_true_iff. split; [apply ext_spec_sound|].
-    apply IH. split; [reflexivity | exact C].
-  - (* ONode *)
-    cbn [run_from step_op monitor_from]. rewrite node_eqb_refl. simpl.
-    apply IH. split; [reflexivity | exact C].
-  - (* OSelfCluster *)
-    cbn [run_from step_op monitor_from]. rewrite !andb_true_iff. split; [split|].
-    + cbn [list_eqb]. rewrite (proj2 (member_eqb_spec _ _) eq_refl). reflexivity.
-    + apply index_ok_sound.
-    + apply IH. split; [reflexivity | exact C].
-  - (* OStress *)
-    simpl. apply IH. split; [reflexivity | exact C].
-Qed.
-
-Theorem monitor_sound ops : monitor_from (None, []) ops (run ops) = true.
-Proof. apply monitor_run. split; [reflexivity | exact I]. Qed.
-
-(* the comparison used by the correspondence accepts the model's own run *)
-From Cell2V Require Import C08.Corr.
-
-Lemma typed_eqb_refl l : typed_eqb l l = true.
-Proof. apply (list_eqb_spec _ typed_pair_spec). reflexivity. Qed.
-
-Lemma model_admissible_refl ms n :
-  model_admissible_b (make_members ms) n (get_service (make_members ms) n) = true.
-Proof.
-  unfold model_admissible_b. destruct (get_service (make_members ms) n) as [it|] eqn:G; [|reflexivity].
-  rewrite service_index in G. apply find_flat_map_some in G. destruct G as [tl [J F]].
-  apply existsb_exists. exists tl. split; [exact J|]. rewrite F. simpl. apply item_eqb_spec. reflexivity.
-Qed.
-
-Lemma answers_agree_refl ms : answers_agree (make_members ms) (query_all (make_members ms)) = true.
-Proof.
-  unfold answers_agree, query_all. rewrite !andb_true_iff.
-  repeat match goal with |- _ /\ _ => split end.
-  - apply typed_eqb_refl.
-  - apply typed_eqb_refl.
-  - apply zlist_eqb_spec. reflexivity.
-  - apply forallb_forall. intros [n a] J. apply in_map_iff in J. destruct J as [n' [E _]]. inv E.
-    simpl. apply model_admissible_refl.
-  - apply perm_eqb_refl.
-  - apply perm_eqb_refl.
-Qed.
-
-Lemma cands_ext tys (L L' : Z -> list item) n : (forall t, L t = L' t) -> cands tys L n = cands tys L' n.
-Proof.
-  intro H. unfold cands. induction tys as [|t r IH]; simpl; [reflexivity|]. rewrite H, IH. reflexivity.
-Qed.
-
-Lemma ext_agree_refl dir : ext_agree dir (ext_of (make_members dir)) = true.
-Proof.
-  unfold ext_agree. apply ext_sound; try reflexivity.
-  intro n. rewrite (cands_ext (types_of dir) _ (spec_list dir) n (lst_types dir)).
-  apply service_cands.
-Qed.
-
-Lemma regs_eqb_refl l : regs_eqb l l = true.
-Proof.
-  apply list_eqb_spec; [|reflexivity].
-  apply pair_eqb_spec; [apply Z.eqb_eq | apply node_eqb_spec].
-Qed.
-
-Lemma agree_run ops : forall s, agree_from s (snd s) ops (run_from s ops) = true.
-Proof.
-  induction ops as [|o r IH]; intro s; [reflexivity|].
-  simpl. destruct (step_op s o) as [s1 b] eqn:E. simpl.
-  assert (H : obs_agree (snd s) b b = true /\ impl_dir (snd s) b = snd s1).
-  { destruct s as [pv dir]. cbn [snd].
-    destruct o as [self listing|bt|st0|v0|v| | |n|id addr svcs|a b']; cbn [step_op] in E.
-    - destruct (if Z.ltb (naddr self) (-1) then None else listing_nodes listing).
-      + unfold pub_of in E. inv E. cbn [obs_agree impl_dir snd].
-        rewrite regs_eqb_refl, perm_eqb_refl, answers_agree_refl. auto.
-      + inv E. auto.
-    - destruct pv as [p|]; [|inv E; auto].
-      destruct (is_nil bt); [inv E; auto|].
-      unfold pub_of in E. inv E. cbn [obs_agree impl_dir snd].
-      rewrite perm_eqb_refl, answers_agree_refl. auto.
-    - destruct pv as [p|]; inv E; cbn [obs_agree impl_dir snd]; [|auto].
-      rewrite Z.eqb_refl, node_eqb_refl. auto.
-    - destruct pv as [p|]; inv E; cbn [obs_agree impl_dir snd]; [|auto].
-      rewrite Z.eqb_refl, node_eqb_refl. auto.
-    - destruct pv as [p|]; inv E; cbn [obs_agree impl_dir snd]; [|auto].
-      rewrite Z.eqb_refl, Bool.eqb_reflx. auto.
-    - destruct pv as [p|]; inv E; cbn [obs_agree impl_dir snd]; [|auto].
-      rewrite Z.eqb_refl. auto.
-    - inv E. cbn [obs_agree impl_dir snd]. rewrite ext_agree_refl. auto.
-    - inv E. cbn [obs_agree impl_dir snd]. rewrite node_eqb_refl. auto.
-    - inv E. cbn [obs_agree impl_dir snd]. rewrite perm_eqb_refl, answers_agree_refl. auto.
-    - inv E. auto. }
-  destruct H as [H1 H2]. rewrite H1, H2. apply IH.
-Qed.
-
-Theorem agree_sound ops : agree (ops, run ops) = true.
-Proof. apply (agree_run ops init_state). Qed.
-
 (* what the node registers for itself satisfies the conformance guard of the fold theorems *)
 Theorem registration_conforms self s : conform_ev (EPut (nid self) (with_state (mk_self self) s)).
 Proof. simpl. auto. Qed.
